@@ -51,10 +51,11 @@ pub struct Case {
     pub level: u8, // 0 = CTAP2, 1 = client
     /// client level only: 0 absent, 1 required, 2 preferred, 3 discouraged
     pub uvreq: u8,
-    /// CTAP2 level: authenticator with hmac-secret (non-UV secret, evaluation at creation), seeded
-    /// credentials carry both secrets, and the request asks for hmac-secret / a PRF evaluation
+    /// CTAP2 level: authenticator with hmac-secret, seeded credentials carry both secrets, and the
+    /// request asks for hmac-secret / a PRF evaluation.  0 no; 1 secrets without UV, evaluation at
+    /// creation; 2 UV-only secrets, evaluation at creation; 3 UV-only secrets; 4 secrets without UV
     #[serde(default)]
-    pub ext: bool,
+    pub ext: u8,
     /// CTAP2 level: how the request reaches the authenticator: 0 as a struct; 1 encoded and decoded;
     /// 2 encoded, options with their default value elided, decoded; 3 as 2 and an empty options
     /// map dropped
@@ -91,10 +92,13 @@ pub fn cases() -> Vec<Case> {
                     for outcome in 0..7u8 {
                         for pin in [false, true] {
                             for arc_mutex in [false, true] {
-                                for ext in [false, true] {
+                                for ext in 0..5u8 {
+                                    if ext >= 2 && pin {
+                                        continue;
+                                    }
                                     for wire in 0..4u8 {
                                         // the wire shapes are spread over the store kinds
-                                        if wire != 0 && (arc_mutex != (wire % 2 == 0)) {
+                                        if wire != 0 && (arc_mutex != (wire % 2 == 0) || ext >= 2) {
                                             continue;
                                         }
                                         v.push(Case { op, rk: bits & 4 != 0, up: bits & 2 != 0, uv: bits & 1 != 0, cap, presence_cap, outcome, pin, arc_mutex, level: 0, uvreq: 0, ext, wire, flip: false });
@@ -112,7 +116,7 @@ pub fn cases() -> Vec<Case> {
         for uvreq in 0..4u8 {
             for cap in 0..3u8 {
                 for outcome in 0..7u8 {
-                    v.push(Case { op, rk: false, up: true, uv: false, cap, presence_cap: true, outcome, pin: false, arc_mutex: false, level: 1, uvreq, ext: false, wire: 0, flip: false });
+                    v.push(Case { op, rk: false, up: true, uv: false, cap, presence_cap: true, outcome, pin: false, arc_mutex: false, level: 1, uvreq, ext: 0, wire: 0, flip: false });
                 }
             }
         }
@@ -157,15 +161,22 @@ where
 {
     let uv = ScriptedUv { verification_cap: cap_of(c.cap), presence_cap: c.presence_cap, outcome: outcome_of(c.outcome), yields: 0, log };
     let mut auth = Authenticator::new(Aaguid::new_empty(), store, HookUv { inner: uv, hook });
-    if c.ext {
-        auth = auth.hmac_secret(passkey_authenticator::extensions::HmacSecretConfig::new_without_uv().enable_on_make_credential());
+    {
+        use passkey_authenticator::extensions::HmacSecretConfig;
+        match c.ext {
+            0 => {}
+            1 => auth = auth.hmac_secret(HmacSecretConfig::new_without_uv().enable_on_make_credential()),
+            2 => auth = auth.hmac_secret(HmacSecretConfig::new_with_uv_only().enable_on_make_credential()),
+            3 => auth = auth.hmac_secret(HmacSecretConfig::new_with_uv_only()),
+            _ => auth = auth.hmac_secret(HmacSecretConfig::new_without_uv()),
+        }
     }
     auth.set_make_credentials_with_signature_counter(true);
     use passkey_types::ctap2::extensions::{AuthenticatorPrfInputs, AuthenticatorPrfValues};
     let prf = || AuthenticatorPrfInputs { eval: Some(AuthenticatorPrfValues { first: [3; 32], second: None }), eval_by_credential: None };
     let result = match c.op {
         Op::Make => {
-            let ext = c.ext.then(|| passkey_types::ctap2::make_credential::ExtensionInputs { hmac_secret: Some(true), hmac_secret_mc: None, prf: Some(prf()) });
+            let ext = (c.ext != 0).then(|| passkey_types::ctap2::make_credential::ExtensionInputs { hmac_secret: Some(true), hmac_secret_mc: None, prf: Some(prf()) });
             let mut req = mc_request(RP, &[9, 9], list, c.rk, c.up, c.uv, c.pin, ext);
             if c.wire != 0 {
                 req = rewire(&req, 7, c.wire).unwrap_or_else(|e| panic!("{e}"));
@@ -176,7 +187,7 @@ where
             })
         }
         Op::Get => {
-            let ext = c.ext.then(|| passkey_types::ctap2::get_assertion::ExtensionInputs { hmac_secret: None, prf: Some(prf()) });
+            let ext = (c.ext != 0).then(|| passkey_types::ctap2::get_assertion::ExtensionInputs { hmac_secret: None, prf: Some(prf()) });
             let mut req = ga_request(RP, list, c.rk, c.up, c.uv, c.pin, ext);
             if c.wire != 0 {
                 req = rewire(&req, 5, c.wire).unwrap_or_else(|e| panic!("{e}"));
@@ -191,7 +202,7 @@ where
 }
 
 fn observe(c: &Case, content: Content) -> Obs {
-    let (mut store, list) = store_for_ext(c.op, content, c.ext);
+    let (mut store, list) = store_for_ext(c.op, content, c.ext != 0);
     // half of the configurations run on a store that reports "nothing found" as Ok(empty list)
     store.empty_ok = !c.presence_cap;
     let before = store.recs();
@@ -398,7 +409,10 @@ pub fn eval(c: &Case) -> (Vec<Finding>, Vec<String>) {
                     let expected_err = c.pin
                         || (c.op == Op::Get && c.rk)
                         || (c.op == Op::Get && matches!(content, Content::NoMatch | Content::OtherRpOnly))
-                        || (c.op == Op::Make && matches!(content, Content::MatchViaList | Content::TwoViaList));
+                        || (c.op == Op::Make && matches!(content, Content::MatchViaList | Content::TwoViaList))
+                        // UV-only secrets evaluated at creation: without a verified user there is no
+                        // secret the evaluation may use (UserVerificationBlocked, C09's subject)
+                        || (c.op == Op::Make && c.ext == 2 && !(asked_uv && reported.map_or(false, |(_, v)| v)));
                     if !expected_err {
                         bad("failure-despite-consent", "all required consent was given and nothing else is wrong, yet the ceremony failed".into());
                     }
@@ -517,7 +531,7 @@ pub fn eval_pair(p: &Pair) -> (Vec<Finding>, String) {
             Op::Get => block_on(auth.get_assertion(ga_request(RP, None, false, true, uvreq, false, None))).map(|r| u8::from(r.auth_data.flags)).map_err(sc_byte),
         });
         let after = shared.recs();
-        let c = Case { op, rk: false, up: true, uv: uvreq, cap: cap_now, presence_cap: true, outcome, pin: false, arc_mutex: false, level: 0, uvreq: 0, ext: false, wire: 0, flip: false };
+        let c = Case { op, rk: false, up: true, uv: uvreq, cap: cap_now, presence_cap: true, outcome, pin: false, arc_mutex: false, level: 0, uvreq: 0, ext: 0, wire: 0, flip: false };
         let ok = consent_ok(&c, true, uvreq);
         let checked = log.snapshot().iter().any(|e| matches!(e, Event::CheckUser { .. }));
         match r {
